@@ -18,7 +18,7 @@ func C14(r *core.Report) {
 		"R1 in tooling.LoadDataFromDataFrames every path to a success return passes the frame-count comparison when the first frame records a total, and passes a successful VerifyHash when it records a checksum (must-pass-through with the 'field absent' branches as the only bypass); every other consumer of a frame's bytes that verifies a present checksum does so before using them; " +
 		"R2 getAllFramesFromDataFrame orders the collected frames by their index with a strict ascending comparator before returning more than one frame, and the concatenation iterates that slice in order; R3 VerifyHash returns nil only when one of the two checksums equals the recorded one; the presence accessors HasHash/HasTotal/HasIndex depend only on nil-ness (a recorded value of 0 is still present); " +
 		"R4 in the indexer's transaction collector the per-transaction frame map is cleared on every path from one transaction to the next, so frames of two payloads cannot mix; R5 reassembled bytes are not handed out while aliasing a pooled or reused buffer. " +
-		"R7 no function of the reassembly rejects a payload because a count (frames, links, nesting depth) exceeds a constant: any frame count and fan-out reassembles. R8 every local of the node decoders that receives a fromCBORArray / UnmarshalCBOR call receives exactly one per declaration (or is zeroed in between): optional fields of one frame cannot leak into the next. R9 VerifyHash and the checksum functions read and write no package-level variable that the package writes: the verdict depends on the bytes and the recorded checksum only. R10 in the collector's loop over the links every path from the fetch of a frame to the next link passes the recursive collection of that frame, and the frame is not also appended on its own. Not decided: the bytes themselves, fan-out shapes, faults a checksum-less payload cannot reveal."
+		"R7 no function of the reassembly rejects a payload because a count (frames, links, nesting depth) exceeds a constant: any frame count and fan-out reassembles. R8 every local of the node decoders that receives a fromCBORArray / UnmarshalCBOR call receives exactly one per declaration (or is zeroed in between): optional fields of one frame cannot leak into the next. R9 VerifyHash and the checksum functions read and write no package-level variable that the package writes: the verdict depends on the bytes and the recorded checksum only. R10 in the collector's loop over the links every path from the fetch of a frame to the next link passes the recursive collection of that frame, and the frame is not also appended on its own. Not decided: the bytes themselves, fan-out shapes, faults a checksum-less payload cannot reveal. R11 the comparator of every sort of a frame list reads the positions it is given from the very slice being sorted (sort.Slice(frames[1:], ... frames[i] ...) compares elements one place off)."
 	c14Gates(r)
 	c14Order(r)
 	c14VerifyHash(r)
@@ -29,6 +29,7 @@ func C14(r *core.Report) {
 	decodeTargetsAreFresh(r, "C14.R8")
 	c14VerifyHashIsAFunctionOfItsArguments(r)
 	c14EveryFrameFollowedOnce(r)
+	c14ComparatorsIndexTheSortedSlice(r)
 	r.Floor("C14.R10", 1)
 	r.Floor("C14.R9", 1)
 	r.Floor("C14.R8", 1)
